@@ -444,3 +444,31 @@ def caching_decorators(func):
         if nm and (nm in CACHING_DECORATORS or nm.split(".")[-1] in CACHING_DECORATORS):
             out.append(d)
     return out
+
+
+_PURITY_MUTATORS = {"append", "extend", "insert", "pop", "remove", "clear", "update", "add", "discard", "setdefault", "popitem", "sort", "reverse",
+                    "appendleft", "popleft"}
+
+
+def param_mutations(func, p):
+    """In-place changes of the object passed as parameter `p`, through the parameter or a name that may alias it
+    (`x = p`, flow-insensitive).  -> [(node, alias name, description)].  Re-binding a name is not a change."""
+    aliases = {p}
+    grew = True
+    while grew:
+        grew = False
+        for n in walk_local(func):
+            if isinstance(n, ast.Assign) and isinstance(n.value, ast.Name) and n.value.id in aliases:
+                for t in n.targets:
+                    if isinstance(t, ast.Name) and t.id not in aliases:
+                        aliases.add(t.id)
+                        grew = True
+    out = []
+    for x in walk_local(func):
+        if isinstance(x, ast.Subscript) and isinstance(x.ctx, (ast.Store, ast.Del)) and isinstance(x.value, ast.Name) and x.value.id in aliases:
+            out.append((x, x.value.id, f"`{norm(enclosing_stmt(x))[:60]}` assigns / deletes items of `{x.value.id}`"))
+        elif isinstance(x, ast.AugAssign) and isinstance(x.target, ast.Name) and x.target.id in aliases:
+            out.append((x, x.target.id, f"`{norm(x)[:60]}` extends `{x.target.id}` in place"))
+        elif isinstance(x, ast.Call) and isinstance(x.func, ast.Attribute) and x.func.attr in _PURITY_MUTATORS and isinstance(x.func.value, ast.Name) and x.func.value.id in aliases:
+            out.append((x, x.func.value.id, f"`{norm(x)[:60]}` mutates `{x.func.value.id}`"))
+    return out
